@@ -572,7 +572,8 @@ class Spectrum:
         else:
             raise ValueError('Unknown method ', interp_method)
 
-        if preserve_power:
+        if preserve_power and np.sum(bins) != 0:
+            # (bins that hold no signal at all have nothing to normalize)
             norm_factor = self.integrate(np.min(wave), np.max(wave), method=interp_method)/np.sum(bins)
             bins *= norm_factor
 
